@@ -186,11 +186,26 @@ def histories(draw, max_ops: int = 50):
     ops = []
     kinds = ["alloc", "alloc", "alloc", "finish", "finish", "get", "get", "get", "close", "close", "purge", "job_ok", "job_ok", "job_ok",
              "job_fail", "clock", "alloc_p", "get_p", "free"]
+    churn = draw(st.booleans())
+    nkeys = len(KEYS)
+    if churn:
+        # few keys, datasets about as large as the store, persistent requests: every request evicts, keys are written, spilled, read
+        # back, purged and written again
+        nkeys = draw(st.integers(2, 3))
+        kinds = ["write", "write", "write", "roundtrip", "roundtrip", "roundtrip", "roundtrip", "rewrite", "rewrite", "alloc_p", "finish",
+                 "get_p", "close", "purge", "job_ok", "get", "alloc", "clock", "job_fail"]
     for _ in range(n):
         k = draw(st.sampled_from(kinds))
-        if k in ("alloc", "alloc_p"):
-            size = draw(st.one_of(st.integers(max(1, cap // 3), max(1, (2 * cap) // 3)), st.integers(1, max(1, cap // 2)),
-                                  st.integers(1, cap + 2)))
+        if k in ("write", "rewrite"):
+            ops.append([k, draw(st.integers(0, 59)), draw(st.integers(cap // 2 + 1, cap))])
+        elif k == "roundtrip":
+            ops.append([k, draw(st.integers(0, 59))])
+        elif k in ("alloc", "alloc_p"):
+            if churn:
+                size = draw(st.integers(cap // 2 + 1, cap))
+            else:
+                size = draw(st.one_of(st.integers(max(1, cap // 3), max(1, (2 * cap) // 3)), st.integers(1, max(1, cap // 2)),
+                                      st.integers(1, cap + 2)))
             ops.append([k, draw(st.integers(0, 59)), size])
         elif k in ("finish", "get", "get_p", "purge"):
             ops.append([k, draw(st.integers(0, 59))])
@@ -202,13 +217,14 @@ def histories(draw, max_ops: int = 50):
             ops.append([k, draw(st.sampled_from(["ms", "ms", "min", "16min"]))])
         else:
             ops.append([k])
-    return {"capacity": cap, "ops": ops, "via_server": draw(st.integers(0, 2)) == 0}
+    return {"capacity": cap, "ops": ops, "via_server": draw(st.integers(0, 2)) == 0, "nkeys": nkeys}
 
 
 # ------------------------------------------------------------------------------------------------ machine
 
 class Machine:
-    def __init__(self, capacity: int, known_f20: bool = False, via_server: bool = False):
+    def __init__(self, capacity: int, known_f20: bool = False, via_server: bool = False, nkeys: int = len(KEYS)):
+        self.nkeys = nkeys
         _case_no[0] += 1
         self.prefix = f"v{os.getpid() % 100000}x{_case_no[0] % 100000}"
         self.capacity = capacity
@@ -465,6 +481,11 @@ class Machine:
             if current and d["state"] == "in_memory":
                 self.breach("C09", "reader-close-rejected", f"closing a reader of {key} raised {type(e).__name__}: {e}")
         if current:
+            if not ok and self.clock.ns - t > FIFTEEN_MIN_NS:
+                # a reader older than the staleness window is presumed dead by the store; if its dataset was evicted meanwhile the
+                # store rejects its late close and keeps counting it. Unspecified territory: mirror the store.
+                self.stats["stale_reader_close_rejected"] = self.stats.get("stale_reader_close_rejected", 0) + 1
+                return
             d["readers"].pop(rdid, None)
             if d["delayed"] and not d["readers"] and d["state"] == "in_memory" and ok:
                 self._model_drop(key, "delayed purge")
@@ -611,8 +632,9 @@ class Machine:
     def _sel(self, kind: str, raw: int) -> int:
         """Resolves a generated selector to a key index: prefers keys for which the operation is meaningful right now (this only
         steers the history; every resolved operation is still a legal client request)."""
+        keys = list(enumerate(KEYS[: self.nkeys]))
         if kind in ("alloc", "alloc_p"):
-            cand = [i for i, k in enumerate(KEYS) if k not in self.model] if raw % 4 else []
+            cand = [i for i, k in keys if k not in self.model] if raw % 4 else []
         elif kind == "finish":
             cand = [i for i, k in enumerate(KEYS) if k in self.writers]
         elif kind in ("get", "get_p"):
@@ -625,15 +647,40 @@ class Machine:
             cand = []
         if cand:
             return cand[(raw // 5) % len(cand)]
-        return raw % len(KEYS)
+        return raw % self.nkeys
 
     # ---- run / teardown
     def run(self, ops: list) -> None:
         for op in ops:
             self.stats["ops"] += 1
             k = op[0]
+            if k in ("write", "rewrite", "roundtrip"):
+                # macro operations: short scripts of ordinary client requests (the invariants are checked after each request)
+                if k == "write":
+                    ki = self._sel("alloc_p", op[1])
+                    script = [["alloc_p", ki, op[2]], ["finish", ki]]
+                elif k == "rewrite":
+                    ki = self._sel("purge", op[1])
+                    script = [["purge", ki], ["alloc_p", ki, op[2]], ["finish", ki]]
+                else:
+                    ki = self._sel("get_p", op[1])
+                    script = [["get_p", ki], ["close", ki, 0]]
+                for sub in script:
+                    self._one(sub)
+                    self.check(sub)
+                    if self.breaches:
+                        return
+                continue
             if k in ("alloc", "alloc_p", "finish", "get", "get_p", "close", "purge"):
                 op = [k, self._sel(k, op[1])] + list(op[2:])
+            self._one(op)
+            self.check(op)
+            if self.breaches:
+                return
+
+    def _one(self, op) -> None:
+        if True:
+            k = op[0]
             if k == "alloc":
                 self.op_alloc(op[1], op[2])
             elif k == "alloc_p":
@@ -659,9 +706,6 @@ class Machine:
                     fs = self.api.free_space()
                     if fs != self.m.free_space:
                         self.breach("C08", "free-space-protocol", f"free-space query answers {fs}, the store has {self.m.free_space}")
-            self.check(op)
-            if self.breaches:
-                return
 
     def teardown(self) -> None:
         dataset.time, dataset.uuid, dataset.get_capacity, dataset.disk.Disk = self._saved
@@ -685,7 +729,7 @@ class Machine:
 
 
 def run_history(case: dict, known_f20: bool = False) -> Machine:
-    m = Machine(case["capacity"], known_f20, bool(case.get("via_server")))
+    m = Machine(case["capacity"], known_f20, bool(case.get("via_server")), int(case.get("nkeys", len(KEYS))))
     try:
         m.run(case["ops"])
     finally:
